@@ -16,6 +16,28 @@ P_VERIFY = H.P_IPP + "verify"
 _cache = {}
 
 
+def _is_break_block(b):
+    return b is not None and b["k"] == "Block" and len(b["stmts"]) == 1 and b["stmts"][0]["k"] in ("Expr", "Semi") and b["stmts"][0]["e"]["k"] == "Break" and b.get("expr") is None
+
+
+def loop_shape(e):
+    """(condition node, negate?, body block) of a loop that runs while a condition holds:
+    `while c { body }`  (desugared `loop { if c { body } else { break } }`)  or  `loop { if c { break; } body.. }`"""
+    blk = e["body"]
+    if blk["k"] != "Block":
+        return None
+    top = blk.get("expr")
+    if not blk["stmts"] and top is not None and top["k"] == "If" and top["c"]["k"] != "LetExpr" and _is_break_block(top.get("f")):
+        return top["c"], False, top["t"]
+    if blk["stmts"] and blk["stmts"][0]["k"] in ("Expr", "Semi"):
+        first = blk["stmts"][0]["e"]
+        if first["k"] == "If" and first.get("f") is None and first["c"]["k"] != "LetExpr" and _is_break_block(first["t"]):
+            rest = {"k": "Block", "stmts": blk["stmts"][1:], "expr": blk.get("expr"), "sp": blk.get("sp"), "ty": blk.get("ty")}
+            if not FX.own_jumps(rest):
+                return first["c"], True, rest
+    return None
+
+
 def analyse_create(F):
     key = (id(F), "create")
     if key in _cache:
@@ -28,16 +50,33 @@ def analyse_create(F):
     def while_hook(I_, e, env):
         if not (I_.fn_stack and FX.same_fn(I_.fn_stack[-1], P_CREATE)):
             return NotImplemented
-        blk = e["body"]
-        top = blk.get("expr")
-        if top is None and blk["stmts"]:
-            top = blk["stmts"][-1].get("e")
-        if top is None or top["k"] != "If":
-            raise Unanalysable("while loop of unexpected shape", FX.short(e.get("sp")))
-        cond_e, body = top["c"], top["t"]
+        shape = loop_shape(e)
+        if shape is None:
+            return NotImplemented
+        cond_e, negate, body = shape
+
+        def ev_cond():
+            v = I_.ev(cond_e, env)
+            if negate:
+                from .alg import BoolV
+
+                try:
+                    c_ = I_.as_cond(v)
+                except Unanalysable:
+                    return v  # merged (conditional) state before the loop: only the generic round's condition is checked
+                v = BoolV((not c_) if isinstance(c_, bool) else c_.negate())
+            return v
+
+        if info.get("generic_done"):
+            return NotImplemented  # the halving loop was already summarised: any further loop is an ordinary one
         carried = I_.carried_vars(body, env)
+        from .alg import Ite as _Ite
+
+        if not any(isinstance(I_.deref(env[lid]), (IntV, _Ite)) for lid in carried):
+            return NotImplemented
         pushed, _ = I_.pushed_and_read(body, env)
-        info["while_cond"] = I_.ev(cond_e, env)
+        info["while_cond"] = ev_cond()
+        info["generic_done"] = True
         h2 = isym("h2")
         # state variables are identified by what they hold (provenance of their values), never by their names
         role_atoms = {"av": "a", "bv": "b", "Gv": "G", "Hv": "H"}
@@ -81,9 +120,9 @@ def analyse_create(F):
         env[byname["H"]] = H.pt_vec("rH", 2 * h2)
         for name, lid in plists.items():
             env[lid] = Vec([])
-        cval = I_.ev(cond_e, env)
+        cval = ev_cond()
         old = I_.sub_trace()
-        I_.ev_raw(body, env)
+        I_.run_body(body, env)
         sub = I_.trace
         I_.trace = old
         post = {r_: I_.deref(env[lid]) for r_, lid in byname.items()}
